@@ -4,9 +4,9 @@
 (* result that is identified with its id (None-valued inputs yield None).    *)
 (*   Ok      evaluation succeeded with a non-None value: shifted in, printed *)
 (*   OkNone  evaluation succeeded with None: shifted in, nothing printed     *)
-(*   Fail    compile-time or run-time failure: *e is the new exception; the  *)
-(*           docs do not say whether *1..*3 stay or None is shifted in, so   *)
-(*           both are allowed -- but never a repeat of an older result       *)
+(*   Fail    compile-time or run-time failure: *e is the new exception; a    *)
+(*           failed input has no result, so *1 *2 *3 keep holding the        *)
+(*           results of the latest inputs that had one                       *)
 (*   PrintFail  evaluation succeeded but printing the value raised: result   *)
 (*           counts (shifted in), *e is the printing exception               *)
 (*   More    the accumulated text is incomplete: nothing changes             *)
@@ -33,7 +33,7 @@ OkNone == /\ n < MaxInputs /\ n' = n + 1
           /\ stars' = Shift(NoneV) /\ kinds' = Append(kinds, "none") /\ UNCHANGED <<e, out>>
 Fail(kind) == /\ n < MaxInputs /\ n' = n + 1
               /\ e' = n + 1
-              /\ (stars' = stars \/ stars' = Shift(NoneV))
+              /\ stars' = stars
               /\ kinds' = Append(kinds, kind) /\ UNCHANGED out
 PrintFail == /\ n < MaxInputs /\ n' = n + 1
              /\ e' = n + 1
